@@ -9,16 +9,23 @@ def getBoolD (j : Json) (k : String) (d : Bool) : Bool :=
   | .ok (Json.bool b) => b
   | _ => d
 
+def parseProd (j : Json) : Except String Prod := do
+  return { id := ← getNat j "id", same := getBoolD j "same" true, rep := getBoolD j "rep" true }
+
 def parseCfg (j : Json) : Except String Cfg := do
   let c ← j.getObjVal? "cfg"
   return { retries := ← getNat c "retries", dieAfter := getBoolD c "dieAfter" false,
-           noProd := getBoolD c "noProd" false, alwaysNew := getBoolD c "alwaysNew" false,
-           preOutput := getBoolD c "preOutput" false, guardNone := getBoolD c "guardNone" true,
+           prods := ← (← getArr c "prods").mapM parseProd, pre := ← getNatList c "pre",
+           guardNone := getBoolD c "guardNone" true,
            killOnSuicidePoll := getBoolD c "killOnSuicidePoll" true }
 
 def parseEv (s : String) : Except String Ev :=
-  match s with
-  | "fin" => pure .fin | "out" => pure .out | "kill" => pure .kill | "die" => pure .die | "adv" => pure .adv
+  if s.startsWith "out:" then
+    match (s.drop 4).toString.toNat? with
+    | some n => pure (.out n)
+    | none => throw s!"bad event {s}"
+  else match s with
+  | "fin" => pure .fin | "kill" => pure .kill | "die" => pure .die | "adv" => pure .adv
   | _ => throw s!"unknown event {s}"
 
 def parseOutcome (s : String) : Except String Outcome :=
@@ -39,7 +46,7 @@ def parseIter (j : Json) : Except String Iter := do
            s3 := ← getEvs j "s3", s4 := ← getEvs j "s4", out := o }
 
 def evName : Ev → String
-  | .fin => "fin" | .out => "out" | .kill => "kill" | .die => "die" | .adv => "adv"
+  | .fin => "fin" | .out c => s!"out:{c}" | .kill => "kill" | .die => "die" | .adv => "adv"
 def outName : Outcome → String
   | .ok => "ok" | .fail => "fail" | .raised => "raise"
 def opName : Op → String
@@ -63,7 +70,8 @@ def snap (s : St) : Json :=
 def summary (s : St) : List (String × Json) :=
   [("final", snap s), ("stopped", jbool (s.pc = .stopped)),
    ("execs", jarr (s.execLog.reverse.map fun e =>
-      jobj [("afterFinal", jbool (!s.hasOutput || decide (s.lastOutput < e.launch))), ("pdws", jbool e.pdws)])),
+      jobj [("afterFinal", jbool (!s.hasOutput || decide (s.lastOutput < e.launch))), ("pdws", jbool e.pdws),
+            ("avail", jbool e.avail)])),
    ("cause", causeName s.cause), ("pollsFin", jnat s.pollsFin), ("books", jnat s.books)]
 
 /-! composed scripts: subscription of ComponentState.stageIn + poll protocol -/
@@ -78,8 +86,12 @@ def parseCEv (s : String) : Except String CEv :=
     match (s.drop 3).toString.toNat? with
     | some n => pure (.sub (.pexit n))
     | none => throw s!"bad event {s}"
+  else if s.startsWith "out:" then
+    match (s.drop 4).toString.toNat? with
+    | some n => pure (.x (.out n))
+    | none => throw s!"bad event {s}"
   else match s with
-    | "out" => pure (.x .out) | "kill" => pure (.x .kill) | "die" => pure (.x .die) | "adv" => pure (.x .adv)
+    | "kill" => pure (.x .kill) | "die" => pure (.x .die) | "adv" => pure (.x .adv)
     | _ => throw s!"unknown composed event {s}"
 
 def getCEvs (j : Json) (k : String) : Except String (List CEv) :=
@@ -140,7 +152,7 @@ def weave (s : Sub) (q : List SubOp) : List Op → List COp
   | Op.env .fin :: r =>
     let (s', q', ops) := takeBlock s q []
     ops ++ weave s' q' r
-  | Op.env .out :: r => COp.ev (.x .out) :: weave s q r
+  | Op.env (.out c) :: r => COp.ev (.x (.out c)) :: weave s q r
   | Op.env .kill :: r => COp.ev (.x .kill) :: weave s q r
   | Op.env .die :: r => COp.ev (.x .die) :: weave s q r
   | Op.env .adv :: r => COp.ev (.x .adv) :: weave s q r
